@@ -162,9 +162,27 @@ func Main(m *testing.M) {
 	if os.Getenv("VERIF_LOG") == "" {
 		logrus.SetOutput(io.Discard)
 	}
+	// log.Fatal in the code under test (raft ready-loop on apply/save errors,
+	// NewBadgerWAL) would end the process silently: make it loud and attributable.
+	logrus.AddHook(fatalHook{})
+	logrus.StandardLogger().ExitFunc = func(code int) {
+		buf := make([]byte, 32<<10)
+		n := stackInto(buf)
+		fmt.Printf("VERIF-FATAL: log.Fatal in code under test (exit %d)\n%s\n", code, buf[:n])
+		Flush()
+		os.Exit(97)
+	}
 	code := m.Run()
 	Flush()
 	os.Exit(code)
+}
+
+type fatalHook struct{}
+
+func (fatalHook) Levels() []logrus.Level { return []logrus.Level{logrus.FatalLevel, logrus.PanicLevel} }
+func (fatalHook) Fire(e *logrus.Entry) error {
+	fmt.Printf("VERIF-FATAL-MSG: level=%s msg=%q fields=%v\n", e.Level, e.Message, e.Data)
+	return nil
 }
 
 // Tier returns "quick" or "thorough".
